@@ -82,6 +82,7 @@ func summarize(obls []*Obligation) []*oblSummary {
 
 func cmdCheck(prop, tier string) int {
 	start := time.Now()
+	loadPropNotes()
 	if prop == "" {
 		fmt.Println("MACHINERY: -property required")
 		return 2
@@ -380,6 +381,24 @@ type propNote struct {
 }
 
 var propNotes = map[string]propNote{}
+
+// loadPropNotes reads the per-property assumption notes kept next to the manifest claims.
+func loadPropNotes() {
+	data, err := os.ReadFile(filepath.Join(verifDir, "tools", "claims.json"))
+	if err != nil {
+		return
+	}
+	var m map[string]struct {
+		Assumptions []string `json:"assumptions"`
+		Bounded     []string `json:"bounded"`
+	}
+	if json.Unmarshal(data, &m) != nil {
+		return
+	}
+	for k, v := range m {
+		propNotes[k] = propNote{assumptions: v.Assumptions, bounded: v.Bounded}
+	}
+}
 
 // writeReplay writes the replay file for a failed obligation and tries to reproduce the failure on the real
 // code. It returns true when a failing input was demonstrated on the real code.
